@@ -1,6 +1,7 @@
 package plumbing
 
 import (
+	"bytes"
 	"fmt"
 	"path/filepath"
 	"sort"
@@ -543,12 +544,7 @@ type sortableChange struct {
 type sortableChanges []sortableChange
 
 func (change *sortableChange) Less(other *sortableChange) bool {
-	for x := 0; x < 20; x++ {
-		if change.hash[x] < other.hash[x] {
-			return true
-		}
-	}
-	return false
+	return bytes.Compare(change.hash[:], other.hash[:]) < 0
 }
 
 func (slice sortableChanges) Len() int {
